@@ -109,6 +109,13 @@ def merge_results(parts):
             out["status"] = p["status"]
             out["error"] = p.get("error")
         out["obligations"].extend(p.get("obligations", []))
+    sts = set(p["status"] for p in parts)
+    if "crash" in sts:
+        out["status"] = "crash"
+        out["error"] = [p.get("error") for p in parts if p["status"] == "crash"][0]
+    elif sts - {"ok"}:
+        # some sub-tree left the executor's subset: the obligations of the other sub-trees still count (undecided overall)
+        out["status"] = "partial" if (out["obligations"] or "partial" in sts) else "unsupported"
     return out
 
 
@@ -315,11 +322,14 @@ def run_property(prop, tier, seed):
             undecided.append("%s: unsupported construct: %s" % (r["function"], r["error"]))
             unsupported_fns.append(r["function"])
             continue
+        if r["status"] == "partial":
+            undecided.append("%s: unsupported construct: %s" % (r["function"], r["error"]))
+            unsupported_fns.append(r["function"])
         assumed.update(r.get("assumed", []))
         used_contracts.update(r.get("used_contracts", []))
         inlined.update(x for x in r.get("executed", []) if x != r["function"])
         for cname, ok in (r.get("covers") or {}).items():
-            if not ok:
+            if not ok and r["status"] != "partial":
                 vacuity.append("unreachable: " + cname)
         cnt = 0
         for ob in r["obligations"]:
@@ -475,7 +485,7 @@ def run_property(prop, tier, seed):
                                 "candidate model" if t is ob else "pseudo-random probe"))
                             break
         bad = [r for r in rs if r["status"] != "ok"]
-        if not hit and any(r["status"] == "unsupported" and r["function"] in unsupported_fns for r in rs):
+        if not hit and any(r["status"] in ("unsupported", "partial") and r["function"] in unsupported_fns for r in rs):
             selfval.append({"breaker": bk["desc"], "skipped": "the function is outside the executor's subset on this tree"})
             continue
         if bad and "does not apply exactly once" in (bad[0].get("error") or ""):
@@ -556,6 +566,19 @@ def run_property(prop, tier, seed):
             rep["native"] = {"reproduced": True, "detail": "witness found by running the real code"}
         else:
             nat = ob.get("native") or native_replay(fn, ob["name"], ob, prop.CONTRACT_MODULES, repo)
+            if nat.get("reproduced") is not True and ob["kind"] == "post":
+                # the solver's counter-model did not replay (e.g. an opaque spec predicate the concrete model does not
+                # realise): look for a failing input of the SAME clause with pseudo-random probes of the real code
+                rnd = random.Random(seed * 31337 + len(ob["name"]))
+                for attempt in range(int(os.environ.get("VERIF_PROBES", "12")) * 2):
+                    nat2 = native_replay(fn, ob["name"].split("[")[0], {"model": {"__random__": rnd.randrange(1 << 30)}, "choices": []},
+                                         prop.CONTRACT_MODULES, repo)
+                    if nat2.get("reproduced") is True and nat2.get("pre_holds_natively"):
+                        nat2["found_by"] = "pseudo-random probe of the same clause (the solver's counter-model did not replay)"
+                        nat2["counter_model_replay"] = {"reproduced": nat.get("reproduced"), "detail": nat.get("detail")}
+                        rep["model"] = nat2.get("inputs")
+                        nat = nat2
+                        break
             rep["native"] = nat
             if nat.get("reproduced") is not True:
                 suffix = " no-failing-input-found"
